@@ -53,6 +53,12 @@ Proof.
   - apply IH; auto. intros y Hy. apply Hd. now right.
 Qed.
 
+Lemma filter_all_true {A} (f : A -> bool) l : (forall x, In x l -> f x = true) -> filter f l = l.
+Proof.
+  induction l as [|a l IH]; intro H; [reflexivity|]. simpl. rewrite (H a (or_introl eq_refl)).
+  f_equal. apply IH. intros x Hx. apply H. now right.
+Qed.
+
 Lemma ref_eqb_eq a b : ref_eqb a b = true <-> a = b.
 Proof.
   destruct a, b; simpl; try rewrite Nat.eqb_eq; split; intro H; try discriminate; try congruence.
@@ -861,6 +867,32 @@ Proof.
   destruct (fixF4 c); [unfold delete_fuel|]; apply H.
 Qed.
 
+(* ... and what Go's delete() did before storage.Delete failed stays done: the references to
+   x are gone and x is no longer a graph node; the storage is unchanged *)
+Lemma delete_absent_state st x ord c :
+  ~ In x (blobs st) ->
+  fst (delete succ subject manifest c ord st x) =
+  {| blobs := removeb x (blobs st);
+     idx := filter (fun e => negb (snd e =? x)) (idx st);
+     gnodes := removeb x (gnodes st);
+     strays := strays st; autogc := autogc st |}.
+Proof.
+  intro Hx. apply memb_false in Hx. unfold delete.
+  assert (H : forall f, fst (delete_loop succ subject manifest c ord (S f) 0 st [x] [x] []) =
+    {| blobs := removeb x (blobs st);
+       idx := filter (fun e => negb (snd e =? x)) (idx st);
+       gnodes := removeb x (gnodes st);
+       strays := strays st; autogc := autogc st |}).
+  { intro f. cbn [delete_loop]. unfold delete_one. rewrite Hx. reflexivity. }
+  destruct (fixF4 c); [unfold delete_fuel|]; apply H.
+Qed.
+
+Lemma removeb_absent x l : ~ In x l -> removeb x l = l.
+Proof.
+  intro H. unfold removeb. apply filter_all_true. intros y Hy. apply negb_true_iff, Nat.eqb_neq.
+  intro E. subst. contradiction.
+Qed.
+
 (* graph nodes are stored blobs: invariant of every history *)
 Definition wf (st : state) : Prop := forall y, In y (gnodes st) -> In y (blobs st).
 
@@ -1017,6 +1049,105 @@ Proof.
   intro Hn. rewrite is_tagged_spec. split.
   - intros (t & [H|H]); [eauto|]. exfalso. now apply (Hn t n).
   - intros (t & H). eauto.
+Qed.
+
+
+(* ------------------------------------------------------------------ *)
+(* histories with arbitrary iteration orders *)
+
+(* every stored blob is a node of the graph: true as long as the store is not reopened at an
+   arbitrary point (a reopened store knows only what index.json reaches) *)
+Definition full (st : state) : Prop := forall y, In y (blobs st) -> In y (gnodes st).
+
+Lemma delete_loop_full c ord : forall fuel k st queue seen pending,
+  full st -> full (fst (delete_loop succ subject manifest c ord fuel k st queue seen pending)).
+Proof.
+  induction fuel as [|f IH]; intros k st queue seen pending Hw; [exact Hw|].
+  cbn [delete_loop]. destruct queue as [|h q]; [exact Hw|].
+  unfold delete_one.
+  assert (Hw' : full {| blobs := removeb h (blobs st);
+                        idx := filter (fun e => negb (snd e =? h)) (idx st);
+                        gnodes := removeb h (gnodes st);
+                        strays := strays st; autogc := autogc st |}).
+  { intros y Hy. simpl in *. apply removeb_In in Hy as [Hy Hn]. apply removeb_In. split; auto. }
+  destruct (memb h (blobs st)); [|exact Hw'].
+  apply IH. exact Hw'.
+Qed.
+
+(* states reachable by the repaired code; Delete and GC with ANY iteration order;
+   [any] = true also allows reopening the store at an arbitrary point *)
+Inductive Hist (kl any : bool) : state -> Prop :=
+| H_init : Hist kl any init
+| H_op st o : Hist kl any st ->
+    match o with ODelete _ | OGC | OReopen => False | _ => True end ->
+    Hist kl any (fst (step succ subject manifest cfg_fixed kl st o))
+| H_delete st n ord : Hist kl any st -> (forall k l y, In y (ord k l) <-> In y l) ->
+    Hist kl any (fst (delete succ subject manifest cfg_fixed ord st n))
+| H_gc st ords : Hist kl any st -> (forall i n, In n (ords i) <-> In n (candidates (idx st))) ->
+    Hist kl any (fst (gc succ subject manifest cfg_fixed kl ords st))
+| H_gc_reopen st ords : Hist kl any st -> (forall i n, In n (ords i) <-> In n (candidates (idx st))) ->
+    Hist kl any (fst (step succ subject manifest cfg_fixed kl
+                       (fst (gc succ subject manifest cfg_fixed kl ords st)) OReopen))
+| H_reopen st : any = true -> Hist kl any st ->
+    Hist kl any (fst (step succ subject manifest cfg_fixed kl st OReopen)).
+
+Lemma gc_wf kl ords st : (forall i n, In n (ords i) <-> In n (candidates (idx st))) ->
+  wf (fst (gc succ subject manifest cfg_fixed kl ords st)).
+Proof.
+  intro Ho. destruct (gc_exact kl ords st Ho) as (st' & Hg & Hn & Hb & _). rewrite Hg.
+  intros y Hy. apply Hb. apply Hn in Hy. split; [|assumption]. eapply Live_in; eauto.
+Qed.
+
+Lemma gc_no_stale kl ords st : no_stale st -> no_stale (fst (gc succ subject manifest cfg_fixed kl ords st)).
+Proof.
+  intro Hw. unfold gc. destruct (gc_index succ subject manifest cfg_fixed kl ords st) as [[ix g]|] eqn:E; [|exact Hw].
+  intros t m H. simpl in H. unfold gc_index in E.
+  destruct (gc_passes _ _ _ _ _ _ _ _ _ _) as [[g' kept]|]; [|discriminate].
+  injection E as <- <-. apply in_app_or in H as [H|H].
+  - apply filter_In in H as [_ H]. discriminate.
+  - apply in_map_iff in H as (x & Hx & _). discriminate.
+Qed.
+
+Lemma hist_wf kl any st : Hist kl any st -> wf st.
+Proof.
+  induction 1 as [|st o _ IH _|st n ord _ IH _|st ords _ IH Ho|st ords _ IH Ho|st _ _ IH].
+  - intros y [].
+  - now apply step_wf.
+  - unfold delete. now apply delete_loop_wf.
+  - now apply gc_wf.
+  - apply step_wf. now apply gc_wf.
+  - now apply step_wf.
+Qed.
+
+Lemma hist_full kl st : Hist kl false st -> full st.
+Proof.
+  induction 1 as [|st o _ IH Ho|st n ord _ IH _|st ords _ IH Ho|st ords _ IH Ho|st Hf _ _]; try discriminate.
+  - intros y [].
+  - destruct o as [n|n t|t|n| |b|s|]; try contradiction; simpl.
+    + unfold push. destruct (memb n (blobs st)); [exact IH|]. intros y Hy. simpl in *.
+      destruct (Nat.eq_dec y n) as [->|Hne]; [now left|]. right. apply removeb_In.
+      split; [|assumption]. destruct Hy as [->|Hy]; [contradiction|now apply IH].
+    + unfold tag. destruct (memb n (blobs st)); exact IH.
+    + unfold untag. destruct (lookup (RTag t) (idx st)); exact IH.
+    + exact IH.
+    + exact IH.
+  - unfold delete. now apply delete_loop_full.
+  - destruct (gc_exact kl ords st Ho) as (st' & Hg & Hn & Hb & _). rewrite Hg.
+    intros y Hy. apply Hn. now apply Hb in Hy.
+  - destruct (gc_exact kl ords st Ho) as (st' & Hg & Hn & Hb & _).
+    destruct (gc_reopen kl ords st st' Ho Hg) as (E1 & _ & _ & E4). rewrite Hg. cbn [fst] in *.
+    intros y Hy. apply E4. rewrite E1 in Hy. apply Hn. now apply Hb in Hy.
+Qed.
+
+Lemma hist_no_stale kl any st : Hist kl any st -> no_stale st.
+Proof.
+  induction 1 as [|st o _ IH _|st n ord _ IH _|st ords _ IH Ho|st ords _ IH Ho|st _ _ IH].
+  - intros t n [].
+  - now apply step_no_stale.
+  - unfold delete. now apply delete_loop_no_stale.
+  - now apply gc_no_stale.
+  - apply step_no_stale. now apply gc_no_stale.
+  - now apply step_no_stale.
 Qed.
 
 End Proofs.
@@ -1287,3 +1418,29 @@ Lemma gc_reopen_final : forall succ subject manifest,
   blobs st2 = blobs st' /\ idx st2 = idx st' /\ strays st2 = strays st' /\
   (forall x, In x (gnodes st2) <-> In x (gnodes st')).
 Proof. intros succ subject manifest H1 H2. exact (gc_reopen succ subject manifest H1 H2). Qed.
+
+(* histories with arbitrary orders: every reachable state is well-formed and free of stale
+   tag-set entries; without reopening at arbitrary points every stored blob is a graph node *)
+Lemma hist_final : forall succ subject manifest,
+  acyclic succ -> subject_listed succ subject ->
+  forall kl any st, Hist succ subject manifest kl any st ->
+  wf st /\ (forall n, is_tagged st n = true <-> exists t, In (RTag t, n) (idx st)) /\
+  (any = false -> forall y, In y (blobs st) -> In y (gnodes st)).
+Proof.
+  intros succ subject manifest H1 H2 kl any st H. split; [|split].
+  - eapply hist_wf; eauto.
+  - intro n. apply no_stale_tagged. eapply hist_no_stale; eauto.
+  - intros ->. eapply hist_full; eauto.
+Qed.
+
+Lemma delete_absent_final : forall succ subject manifest st x ord c,
+  ~ In x (blobs st) ->
+  snd (delete succ subject manifest c ord st x) = ENotFound /\
+  blobs (fst (delete succ subject manifest c ord st x)) = blobs st /\
+  gnodes (fst (delete succ subject manifest c ord st x)) = removeb x (gnodes st) /\
+  idx (fst (delete succ subject manifest c ord st x)) = filter (fun e => negb (Nat.eqb (snd e) x)) (idx st).
+Proof.
+  intros succ subject manifest st x ord c Hx. split; [now apply delete_absent|].
+  rewrite (delete_absent_state succ subject manifest st x ord c Hx). cbn [blobs gnodes idx].
+  split; [now apply removeb_absent|split; reflexivity].
+Qed.
